@@ -6,28 +6,40 @@ import Banyan.Lemmas.C14Defs
 namespace Banyan.C14
 set_option linter.unusedSimpArgs false
 
-structure PostA (t : Tid) (sh sh' : Shared) (th th' : Th) : Prop where
-  rcDelta : sh'.rc - sh.rc = (th'.holds : Int) - th.holds
+structure PostA (t : Tid) (sh sh' : Shared) (th th' : Th) (p : Proc) : Prop where
+  /-- a step never adds more to `refCount` than to the stepper's owned references … -/
+  rcLe : sh'.rc - sh.rc ≤ (th'.holds : Int) - th.holds
+  /-- … and exactly as much unless it is the CAS of a stray DecRef -/
+  rcEq : strayPC th.pc = false → sh'.rc - sh.rc = (th'.holds : Int) - th.holds
+  rcNonneg : 0 ≤ sh'.rc
+  /-- a thread gets into a stray DecRef only by calling `decRefStray` -/
+  stray : strayPC th'.pc = true → strayPC th.pc = true ∨ (th.pc = .idle ∧ p = .decRefStray)
   openOfRc : sh'.down = false → sh'.rc > 0 → sh'.isOpen = true
   dirOfOpen : sh'.isOpen = true → sh'.dir = true
   mbdOfNoDir : sh'.dir = false → sh'.mbd = true
   lock : locked th'.pc = true ↔ sh'.mu = some t
 
-theorem tstep_postA {t sh th p ok sh' th'} (h : tstep t sh th p ok = some (sh', th')) (P : Pre t sh th)
-    (hp : p ≠ .decRefStray) : PostA t sh sh' th th' := by
+theorem tstep_postA {t sh th p ok sh' th'} (h : tstep t sh th p ok = some (sh', th')) (P : Pre t sh th) :
+    PostA t sh sh' th th' p := by
   obtain ⟨pc, holds, base, res, flag⟩ := th
-  obtain ⟨rcGe, lock, openOfRc, dirOfOpen, mbdOfNoDir, rdExcl, rdGe, tl⟩ := P
+  obtain ⟨rcNonneg, lock, openOfRc, dirOfOpen, mbdOfNoDir, rdExcl, rdGe, tl⟩ := P
   cases pc <;> simp only [tstep] at h
   case idle =>
     cases p <;> simp only [] at h <;> (try split at h) <;> simp at h <;> (try obtain ⟨rfl, rfl⟩ := h) <;>
-      constructor <;> simp_all [locked, TL, TLpc, Shared.lockFree, rdIn, reading, prem, pend] <;> (try omega)
+      constructor <;> simp_all [locked, TL, TLpc, Shared.lockFree, rdIn, reading, prem, pend, strayPC] <;> (try omega)
   case aqUnlock r =>
     simp at h; obtain ⟨rfl, rfl⟩ := h
-    cases r <;> constructor <;> simp_all [locked, TL, TLpc, rdIn, reading, prem, pend]
+    cases r <;> constructor <;> simp_all [locked, TL, TLpc, rdIn, reading, prem, pend, strayPC]
+  case drLoad own =>
+    cases own <;> (try split at h) <;> simp at h <;> obtain ⟨rfl, rfl⟩ := h <;> constructor <;>
+      simp_all [locked, TL, TLpc, rdIn, reading, prem, pend, strayPC] <;> (try omega)
+  case drCas cur own =>
+    cases own <;> (try split at h) <;> (try split at h) <;> simp at h <;> obtain ⟨rfl, rfl⟩ := h <;> constructor <;>
+      simp_all [locked, TL, TLpc, rdIn, reading, prem, pend, strayPC] <;> (try omega)
   all_goals (try split at h)
   all_goals (try split at h)
   all_goals simp at h
   all_goals obtain ⟨rfl, rfl⟩ := h
-  all_goals constructor <;> simp_all [locked, TL, TLpc, Shared.lockFree, rdIn, reading, prem, pend] <;> (try omega)
+  all_goals constructor <;> simp_all [locked, TL, TLpc, Shared.lockFree, rdIn, reading, prem, pend, strayPC] <;> (try omega)
 
 end Banyan.C14
